@@ -2,7 +2,7 @@
 \* orders; plus, on the single-rich declarations, each modelled sort dropped in turn (sensitivity: NOTE lines)
 CONSTANTS MaxRich = 2
  Contexts = {1, 2, 3, 4}
- Drops = {"none", "declared_deps", "build_deps", "source_groups", "tool_groups", "output_names", "outputs", "provides", "entry_points", "env", "cmds"}
+ Drops = {"none", "declared_deps", "source_groups", "tool_groups", "output_names", "outputs", "provides", "entry_points", "env", "cmds"}
  DropRich = 1
  EnvRefs = TRUE
  Emit = TRUE
